@@ -21,6 +21,15 @@ relationship type and value under every accessor), same children, recursively. -
 theorem parse_serialise {it : Item} (h : Built it) : parse (serialise it) = .ok it :=
   parse_serialise_wf it h.wf
 
+/-- The property's wording: the parsed item has the same class and, under every accessor, equal name,
+relationship type, value and nested content (the accessors are functions of the attributes). -/
+theorem parsed_item_equal {it : Item} (h : Built it) :
+    ∃ back, parse (serialise it) = .ok back ∧ back.cls = it.cls ∧ nameOf back = nameOf it ∧ relOf back = relOf it ∧
+      back.attrs = it.attrs ∧ back.content = it.content ∧
+      numValue back = numValue it ∧ scoordValue back = scoordValue it ∧ scoord3dValue back = scoord3dValue it ∧
+      tcoordValue back = tcoordValue it ∧ imageFrames back = imageFrames it ∧ waveformChannels back = waveformChannels it :=
+  ⟨it, parse_serialise h, rfl, rfl, rfl, rfl, rfl, rfl, rfl, rfl, rfl, rfl, rfl⟩
+
 /-- **Round trip (per-class entry point)**: `<Class>.from_dataset` of the item's own class gives the item back. -/
 theorem parse_serialise_own_class {it : Item} (h : Built it) : parseAs it.cls (serialise it) = .ok it := by
   have hp := parse_serialise h
@@ -158,12 +167,12 @@ theorem accessor_num (ds : Rat → Rat) (name : Coded) (v : Rat) (isFloat : Bool
   have h1 : numValue it = some (if isFloat then v else ds v) := by
     rw [hs]
     simp only [numValue, Item.attrs, lookup_extra _ name rel _ "MeasuredValueSequence" (by decide)]
-    cases isFloat <;> simp [List.lookup]
+    cases isFloat <;> simp
   refine ⟨h1, ?_, ?_, ?_, hnr.1, hnr.2⟩
   · intro hd; rw [h1]; cases isFloat <;> simp [hd]
   · rw [hs]
     simp only [numUnit, Item.attrs, lookup_extra _ name rel _ "MeasuredValueSequence" (by decide)]
-    simp [List.lookup]
+    simp
   · rw [hs]
     simp only [numQualifier, Item.attrs, lookup_extra _ name rel _ "NumericValueQualifierCodeSequence" (by decide)]
     cases q <;> simp [List.lookup]
@@ -178,7 +187,7 @@ theorem accessor_container (name : Coded) (c : Bool) (t : Option String) (rel : 
   rw [hs]
   refine ⟨?_, ?_, hs ▸ hnr.1, hs ▸ hnr.2⟩
   · simp only [strValue, Item.attrs, lookup_extra _ name rel _ "ContinuityOfContent" (by decide)]
-    simp [List.lookup]
+    simp
   · simp only [containerTemplate, Item.attrs, lookup_extra _ name rel _ "ContentTemplateSequence" (by decide)]
     cases t <;> simp [List.lookup]
 
@@ -232,7 +241,7 @@ theorem accessor_scoord (name : Coded) (gt : String) (p : Points) (o f rel : Opt
     rw [List.length_flatten] at key
     simp [List.lookup, key]
   · simp only [strValue, Item.attrs, lookup_extra _ name rel _ "GraphicType" (by decide)]
-    simp [List.lookup]
+    simp
 
 /-- SCOORD3D: the same with `reshape(-1, 3)`, and the frame of reference -/
 theorem accessor_scoord3d (name : Coded) (gt : String) (p : Points) (fo : String) (f rel : Option String) (it : Item)
@@ -253,7 +262,7 @@ theorem accessor_scoord3d (name : Coded) (gt : String) (p : Points) (fo : String
     rw [List.length_flatten] at key
     simp [List.lookup, key]
   · simp only [strValue, Item.attrs, lookup_extra _ name rel _ "GraphicType" (by decide)]
-    simp [List.lookup]
+    simp
   · simp only [strValue, Item.attrs, lookup_extra _ name rel _ "ReferencedFrameOfReferenceUID" (by decide)]
     simp [List.lookup]
 
